@@ -4,6 +4,7 @@ import RSV.Driver.Tables
 import RSV.Driver.StreamOps
 import RSV.Driver.ApiOps
 import RSV.Driver.LeoOps
+import RSV.Driver.MatOps
 import RSV.Model.Builders
 import RSV.Model.Cert
 import RSV.Model.Codec
@@ -422,7 +423,7 @@ def opSplit (args : List String) : String :=
         let h := all.foldl (fun h b => fnvStep h (UInt8.ofNat b)) fnvInit
         let per := match sh with | s :: _ => s.length | [] => 0
         let aliased := if d + p = 1 then 1 else SJ.splitAliased q d p n (n + spare)
-        s!"ok {sh.length} {per} {hex64 h} {aliased} enc=nil | l0={if sh == sh0 then 1 else 0} eq={if sh.all (·.length == per) then 1 else 0}"
+        s!"ok {sh.length} {per} {hex64 h} {aliased} enc=nil out=0 | l0={if sh == sh0 then 1 else 0} eq={if sh.all (·.length == per) then 1 else 0}"
       | _, _ => "ok | l0=0"
     | _, _, _, _, _ => "bad-op"
   | _ => "bad-op"
@@ -664,6 +665,9 @@ where stepOp (toks : List String) : String :=
   | "concstream" :: _ => "ok"
   | "concstreamf" :: _ => "ok"
   | "concsame" :: _ => "ok"
+  | "minv" :: args => opMinv args
+  | "bmat" :: args => opBmat args
+  | "fn" :: args => opFn args
   | "sencode" :: args => opSEncode args
   | "sverify" :: args => opSVerify args
   | "srecon" :: args => opSRecon args
